@@ -153,8 +153,8 @@ impl Scenario for C02 {
     }
     fn runs(&self, tier: Tier) -> u64 {
         match tier {
-            Tier::Quick => 192,
-            Tier::Thorough => 6_000,
+            Tier::Quick => 480,
+            Tier::Thorough => 24_000,
         }
     }
     fn describe(&self) -> &'static str {
@@ -182,8 +182,9 @@ impl Scenario for C02 {
             // through the real writer
             let mut s = SimStream::new(cx, vec![]);
             s.short_writes = true;
-            if f.write(&mut s).is_err() {
-                cx.fail("C02/harness-write-failed", "fault-free write failed".to_string());
+            if f.write(&mut s).is_err() || s.sink != f.to_bytes_with_newline() {
+                // the writer did not deliver the encoding: C15's business, no verdict here
+                cx.discard("write-failed");
                 return cx.verdict();
             }
             s.sink
